@@ -248,7 +248,10 @@ def gen_model(rng, size="small", feats=None):
                         flagged |= set(us)
                 ve["initial"] = [(x, x in flagged) for x in seq]
     user = []
-    if F.get("user"):
+    if F.get("user") and F.get("user_wait"):
+        # a temporal user rule that an EARLIER arrival can break: a bound on the wait at a stop (or at the end of the vehicle)
+        user.append(("wait", rng.choice([0, 60, 300, 900]), rng.random() < 0.3, True))
+    elif F.get("user"):
         for _ in range(rng.randint(1, 2)):
             f = rng.choice(["pos", "arrival", "start", "end", "cumtravel", "wait"] + (["level0"] if nres else []))
             veh = rng.random() < 0.4
@@ -260,7 +263,7 @@ def gen_model(rng, size="small", feats=None):
             user.append((f, mx, veh, rng.random() < 0.3))
         # a two-level constraint: one object with a per-stop and a per-vehicle exact check
         # (registered as ONE constraint by the harness: "paired" flag on the stop-level line)
-        if rng.random() < 0.4:
+        if rng.random() < 0.4 and not F.get("user_wait"):
             tmp = rng.random() < 0.3
             f1, f2 = rng.choice(["pos", "wait", "cumtravel"]), rng.choice(["pos", "cumtravel", "end"])
             mxs = {"pos": rng.randint(1, 4), "wait": rng.choice([0, 300, 1800]), "cumtravel": rng.choice([600, 1500, 4000]),
